@@ -78,6 +78,14 @@ def run(ctx):
                               f"uninterrupted run took {len(r.history.beta)}", {"cfg": r.cfg, "resumed_from_iteration": pl["iteration"],
                                                                                "betas": [float(b) for b in r2.history.beta]})
     ctx.extra["resumed_runs_checked"] = nres
+    # single-precision populations (numerical check only; not replayed through the binary64 model)
+    n32 = 0
+    for cfg in sb.f32_cfgs(ctx, ctx.scale(12, 60)):
+        r = sr.do_run(cfg)
+        n32 += 1
+        ctx.count(sb.cfg_key(cfg), r.error is None and r.history is not None and len(r.history.beta) >= 2, kind=f"float32/{cfg['kind']}/{cfg['ns']}")
+        check_schedule(r, tag="float32:")
+    ctx.extra["float32_runs_checked"] = n32
     # direct sweep: fixed schedule of n steps for every n (cheap populations)
     bad = []
     for nsteps in sweep:
